@@ -91,7 +91,7 @@ reg("C09", "simnet", "fault_enumeration",
     "DESIGN.md section 6 C09")
 reg("C10", "simnet", "exploration",
     "bounded-exhaustive enumeration of (URL, options) combinations; the request bytes are checked by a strict hand-written parser and by the independent websockets.ServerProtocol",
-    "All 576 URL forms x option combinations (thorough: full cross product of 1536 option tuples): bytes written before the first read are exactly one valid GET upgrade "
+    "All 576 URL forms x option combinations (thorough: full cross product of 2048 option tuples): bytes written before the first read are exactly one valid GET upgrade "
     "request with the right target, Host rule, Upgrade/Connection/Version, a key that is the base64 of exactly one fresh 16-byte OS draw, and options reflected exactly.",
     "Trusted: mc/ref/handshake.py parser, the websockets package as second opinion, the urandom recording shim.",
     "DESIGN.md section 6 C10")
